@@ -52,11 +52,11 @@ G_MOTIFS = {"Marks6": ["eM", "EM", "d", "eSM", "eMM", "bM", "MM", "dM"], "Emoji6
 
 
 def g_cases(seed, quick):
-    """sources of 5..7 (quick) / 6..9 (thorough) symbols: random symbols of a themed alphabet mixed with the motifs above"""
+    """sources of 5..7 (quick) / 6..8 (thorough) symbols: random symbols of a themed alphabet mixed with the motifs above"""
     import random
     rnd = random.Random(1000003 * seed + 19)
-    n = 700 if quick else 6000
-    lo, hi = (5, 7) if quick else (6, 9)
+    n = 700 if quick else 2500
+    lo, hi = (5, 7) if quick else (6, 8)
     seen, cases = set(), []
     while len(cases) < n:
         al = rnd.choice(["Marks6", "Emoji6", "Hangul6", "Lines6", "Full"])
@@ -178,17 +178,113 @@ def check_C19(ctx):
     ])
 
 
+# ------------------------------------------------------------------------------------------
+# C18 equality, ordering, hashing
+E_FILES = ["text/Graphemes.tla", "lang/EqHash.tla", "lang/EqHashMC.tla", "lang/EqHashMC_quick.cfg", "lang/EqHashMC_thorough.cfg"]
+
+
+def e_sig(f):
+    return {"check": f["check"], "dev": f["dev"], "engine": f["engine"], "type": f["ty"], "kind": f["kind"], "op": f["op"],
+            "form_a": f.get("form_a", ""), "form_b": f.get("form_b", "")}
+
+
+def e_msg(f):
+    return ("%s of %s values (%s) via %s: %s%s -- specification: %s; observed: %s (%s)"
+            % (f["op"], f["ty"], f["kind"], f["engine"], f["a"], (" vs " + f["b"]) if f.get("b") else "", f["want"], f["got"], f["dev"]))
+
+
+def check_C18(ctx):
+    binary = ctx.build("strings")
+    r = ctx.tlc(E_FILES, "EqHashMC", "EqHashMC_quick.cfg" if ctx.quick else "EqHashMC_thorough.cfg", workers=tlc_workers(ctx), tag="eqhash", timeout=5400)
+    rows = r.json_lines()
+    groups = [x for x in rows if x.get("row") == "group"]
+    if not groups:
+        raise Infra("the table has no group rows")
+    summary, fails = run_driver(ctx, binary, "eqhash", [tlc_out(r)], "eqhash")
+    nrows = sum(1 for x in rows if x.get("row"))
+    if nrows != r.distinct - 1:
+        raise Infra("%d table rows for %d states" % (nrows, r.distinct))
+    if summary["groups"] != len(groups) or summary["histories"] != sum(1 for x in rows if x.get("row") == "hist"):
+        raise Infra("driver judged %d groups / %d histories, the table has %d / %d"
+                    % (summary["groups"], summary["histories"], len(groups), sum(1 for x in rows if x.get("row") == "hist")))
+    for f in fails:
+        ctx.report(e_sig(f), e_msg(f), {"check": f["check"], "static_type": f["ty"], "a": f["a"], "b": f.get("b", ""), "engine": f["engine"],
+                                         "operation": f["op"], "specification": f["want"], "observed": f["got"]})
+    # negative control: flipped predictions must be reported by the same driver
+    bad = json.loads(json.dumps(rows))
+    sg = next(g for g in bad if g.get("row") == "group" and g["ty"] == "String")
+    srcs = ["".join(x["src"]) for x in sg["reps"]]
+    i, j = srcs.index("eM"), srcs.index("d")                                  # NFD and NFC spelling of one string
+    pr = next(x for x in bad if x.get("row") == "pair" and x["g"] == sg["g"] and x["i"] == i + 1)
+    if pr["eq"][j] is not True or pr["cmp"][j] != 0:
+        raise Infra("negative control: the table does not predict NFD == NFC")
+    pr["eq"][j] = False
+    pr["cmp"][j] = -1
+    kr = next(x for x in bad if x.get("row") == "key" and x["g"] == sg["g"] and x["i"] == i + 1)
+    q = next(k["p"] for k in bad if k.get("row") == "key" and k["g"] == sg["g"] and k["i"] == j + 1)
+    kr["same"][q - 1] = False
+    hr = next(x for x in bad if x.get("row") == "hist" and x["old"][1] == 1)   # second insert replaced the first
+    hr["len"] += 1
+    nf = os.path.join(ctx.work, "negctl.ndjson")
+    write_ndjson(nf, bad)
+    _, nfails = run_driver(ctx, binary, "eqhash", [nf], "eqhash-negctl")
+    kinds = {(f["check"], f["dev"]) for f in nfails}
+    need = {("eq", "wrong-equality"), ("order", "wrong-order"), ("key", "different-keys-one-entry"), ("hist", "wrong-history")}
+    if not need <= kinds:
+        raise Infra("negative control failed: flipped predictions were not all reported: %s" % sorted(kinds))
+    tg = next(g for g in groups if g["ty"] == "Type")
+    ctx.add_sample({"static type": "String", "representations": [{"symbols": "".join(x["src"]), "form": x["form"]} for x in sg["reps"][:8]]})
+    ctx.add_sample({"static type": "Type", "type terms (members as written)": [
+        {"c": x["t"]["c"], "ms": x["t"]["ms"], "au": x["t"]["au"], "es": x["t"]["es"], "form": x["form"]} for x in tg["reps"][3:9]]})
+    h = next(x for x in rows if x.get("row") == "hist" and x["old"][1] == 1 and x["old"][2] == 2)
+    ctx.add_sample({"dictionary history": "insert k1->1; insert k2->2; remove k3", "pool": h["pool"], "k1,k2,k3": h["ks"],
+                    "replaced/removed values": h["old"], "length": h["len"], "lookups": h["look"]})
+    return ctx.finish({
+        "states": r.distinct, "transitions": r.generated,
+        "traces_validated_against_impl": (summary["pairs"] + summary["key_pairs"] + summary["histories"]) * summary["engines"],
+        "evaluations": summary["evals"],
+        "distinct_nontrivial": summary["equal_pairs_of_different_reps"] + summary["equal_key_pairs_of_different_reps"],
+        "rule": "non-trivial = ordered pairs of DIFFERENT representations that the specification makes equal (as values of one static type, "
+                "and as dictionary keys): the cases where equality, order and hash input must agree although the values were constructed differently",
+        "groups": summary["groups"], "representations": summary["reps"], "distinct_values": summary["distinct_values"],
+        "pairs_compared": summary["pairs"], "hashable_representations": summary["hashable_reps"], "key_pairs": summary["key_pairs"],
+        "dictionary_histories": summary["histories"], "key_pools": summary["pools"],
+        "negative_control": "4 flipped predictions (NFD == NFC made false, its order, the same pair as dictionary keys, a history length) all reported",
+        "exhaustive": True,
+    }, assumptions=[
+        "values are compared only with values of the same static type (what the checker accepts for == and <); across types only as keys of {HashableStruct: Int}",
+        "number values are small (-128..127; fixed-point in hundredths); exact arithmetic at the type bounds belongs to C11-C17",
+        "dictionaries are in-memory script values (the same atree maps and hash inputs as stored ones)",
+    ])
+
+
 META = {
+    "C18": {
+        "level_text": "TLC evaluates the canonical-form model on a universe of ~330 (quick) / ~450 (thorough) representations in 31-41 static-type groups "
+                      "(NFC/NFD/constructed strings and characters, booleans, every integer and fixed-point type in decimal/hex/converted form, addresses, "
+                      "paths, enums, ~70 type values with intersections and entitlement sets in different orders written statically and built at run time, "
+                      "optionals, arrays and dictionaries of these), checks the laws on the model (equivalence, strict total order consistent with ==, equal "
+                      "keys interchangeable) and prints the predicted ==/order of every pair of a group, the identity of every pair of hashable reps as "
+                      "dictionary keys, and ~1600 dictionary histories. Scripts on interpreter and VM evaluate ==, !=, <, <=, >, >= and the dictionary "
+                      "operations on the rendered expressions; results are compared with the model and the laws are re-checked on the observed tables.",
+        "level_note": "Trusted: TLC, the renderer of representations to Cadence expressions. Bounded universe; values of composite (non-enum) types are not equatable "
+                      "and not covered.",
+        "technique": "TLA+ spec (EqHash.tla: representations, canonical forms, order, dictionary keyed by canonical form) evaluated by TLC into tables; table "
+                     "conformance of scripts on both engines plus direct law checks on the observed tables",
+        "design_ref": "DESIGN.md section 5 C18",
+        "engine": "E4 table conformance",
+    },
     "C19": {
-        "level_text": "TLC enumerates every string source up to 5 (quick) / 6-7 (thorough) symbols over class-focused alphabets (marks/NFC pairs, emoji ZWJ "
-                      "sequences and flags, Hangul jamo/syllables, CR LF) and up to 3-4 symbols over the full 17-symbol alphabet, checks the laws of the "
-                      "specification on each (segmentation is a partition and equals the left-to-right state machine, every run of clusters stands on its own, "
-                      "NFC is idempotent / canonically equivalent / compatible with concatenation, aligned occurrences = boundary-aligned code-point matches, "
-                      "join(split) = identity, strict total order) and prints the predicted result of every operation for every needle (all contiguous "
-                      "fragments of source and value, aligned or not). The driver runs every row through direct StringValue calls and through Cadence "
-                      "scripts on interpreter and VM (arguments; literals for a share) and compares.",
+        "level_text": "TLC enumerates every string source up to 4 (quick) / 5 (thorough) symbols over class-focused alphabets (marks/NFC pairs, emoji ZWJ "
+                      "sequences and flags, Hangul jamo/syllables, CR LF) and up to 3 symbols over the full 17-symbol alphabet, plus 700 (quick) / 2500 (thorough) "
+                      "seeded generated sources of 5-7 / 6-8 symbols biased toward the same motifs; checks the laws of the specification (segmentation is a "
+                      "partition and equals the left-to-right state machine, every run of clusters stands on its own, NFC is idempotent / canonically equivalent "
+                      "/ compatible with concatenation, aligned occurrences = boundary-aligned code-point matches, join(split) = identity, strict total order) "
+                      "and prints the predicted result of every operation for every needle (all contiguous fragments of source and value, aligned or not). "
+                      "The driver runs every row through direct StringValue calls and through Cadence scripts on interpreter and VM (arguments; literals for a "
+                      "share; every predicted failure directly and a share as scripts) and compares.",
         "level_note": "Trusted: TLC, x/text norm and uniseg (used to validate the model's alphabet, Norm and Clusters; mismatch = exit 2), the symbol-to-code-point "
-                      "renderer. Bounded: 17 code points, sources up to 5-7 symbols.",
+                      "renderer. Bounded: 17 code points, exhaustive sources up to 4-5 symbols, generated ones up to 7-8.",
         "technique": "TLA+ spec (Graphemes.tla: mini UAX#29 + NFC + string operations on cluster sequences) evaluated by TLC into a table; table conformance of "
                      "interpreter.StringValue and of scripts on both engines",
         "design_ref": "DESIGN.md section 5 C19",
